@@ -24,7 +24,9 @@
 (* every other thread has finished: it then leaves the next() pending).    *)
 (* Schedule points: "op"; the harness's cooperative mutex: "h.lock" (right *)
 (* after acquiring), "h.mtx" (contended, spin), "h.unlock" (right after    *)
-(* releasing); "v1.set_pop" (inner set(), before resuming the waiter);     *)
+(* releasing); "ev_xchg" (entry of the inner set(), before its exchange;   *)
+(* the library's site scope.ev_xchg), "v1.set_pop" (before resuming the    *)
+(* waiter);                                                                *)
 (* "auto.wait", "v1.sow_cas", "auto.await" (spin), "auto.cont",            *)
 (* "auto.dereg_wait" (spin in the stop callback's destructor).             *)
 (***************************************************************************)
@@ -123,21 +125,30 @@ NextOp(t, n) ==
 Locked(t) ==
   LET k == sec[t]
       noop == k = "set" /\ st = "D"
-      notifyIn == ~noop /\ k # "reset" /\ Variant = "ok"
-      notifyOut == ~noop /\ k # "reset" /\ Variant # "ok"
+      notify == ~noop /\ k # "reset"
   IN
   /\ st' = IF k = "reset" THEN (IF st = "S" THEN "U" ELSE st) ELSE IF noop THEN st ELSE IF k = "set" THEN "S" ELSE "D"
   /\ effSets' = IF k = "set" /\ ~noop THEN effSets + 1 ELSE effSets
   /\ rv' = IF k = "reset" THEN [rv EXCEPT ![t] = IF st = "S" THEN 1 ELSE 2] ELSE rv
   /\ values' = IF k = "reset" /\ st = "S" THEN values + 1 ELSE values
   /\ bad' = IF k = "reset" /\ st = "U" THEN "try_reset while unset" ELSE bad
-  /\ ev' = IF k = "reset" THEN (IF st = "S" /\ ev = SIG THEN 0 ELSE ev) ELSE IF notifyIn THEN SIG ELSE ev
-  /\ todo' = IF notifyOut THEN [todo EXCEPT ![t] = TRUE] ELSE todo
-  /\ IF notifyIn /\ ev \in Nexts
-     THEN /\ top' = [top EXCEPT ![t] = ev] /\ mtx' = mtx /\ Stay(t, "v1.set_pop")
-     ELSE /\ top' = top /\ mtx' = 0 /\ Stay(t, "h.unlock")
+  /\ ev' = IF k = "reset" /\ st = "S" /\ ev = SIG THEN 0 ELSE ev              \* event_.reset()
+  /\ todo' = IF notify /\ Variant # "ok" THEN [todo EXCEPT ![t] = TRUE] ELSE todo
+  /\ IF notify /\ Variant = "ok"
+     THEN mtx' = mtx /\ Stay(t, "ev_xchg")          \* entering event_.set() with the mutex held
+     ELSE mtx' = 0 /\ Stay(t, "h.unlock")
   /\ lastEv' = <<>>
-  /\ UNCHANGED <<sec, cbk, cbExec, src, q, res, phase, doneReq>>
+  /\ UNCHANGED <<sec, cbk, cbExec, src, q, top, res, phase, doneReq>>
+
+\* inner event_.set(): exchange(SIG)
+Xchg(t) ==
+  /\ ev' = SIG
+  /\ IF ev \in Nexts
+     THEN top' = [top EXCEPT ![t] = ev] /\ mtx' = mtx /\ Stay(t, "v1.set_pop") /\ lastEv' = <<>> /\ UNCHANGED <<sec, cbExec, res>>
+     ELSE /\ top' = top
+          /\ IF mtx = t THEN mtx' = 0 /\ Stay(t, "h.unlock") /\ lastEv' = <<>> /\ UNCHANGED <<sec, cbExec, res>>
+             ELSE mtx' = mtx /\ After(t)
+  /\ UNCHANGED <<st, todo, rv, cbk, src, q, bad, phase, effSets, values, doneReq>>
 
 \* resume the popped waiter: schedule() on its receiver's scheduler
 SetPop(t) ==
@@ -149,14 +160,11 @@ SetPop(t) ==
 
 \* just after the unlock
 Unlocked(t) ==
-  IF todo[t]
-  THEN /\ todo' = [todo EXCEPT ![t] = FALSE] /\ ev' = SIG          \* (bad variant) the late event_.set()
-       /\ IF ev \in Nexts
-          THEN top' = [top EXCEPT ![t] = ev] /\ Stay(t, "v1.set_pop") /\ lastEv' = <<>> /\ UNCHANGED <<sec, cbExec, res>>
-          ELSE top' = top /\ After(t)
-       /\ UNCHANGED <<st, mtx, rv, cbk, src, q, bad, phase, effSets, values, doneReq>>
-  ELSE /\ After(t)
-       /\ UNCHANGED <<st, ev, mtx, todo, rv, cbk, src, q, top, bad, phase, effSets, values, doneReq>>
+  /\ IF todo[t]
+     THEN /\ todo' = [todo EXCEPT ![t] = FALSE] /\ Stay(t, "ev_xchg") /\ lastEv' = <<>>   \* (bad variant) the late event_.set()
+          /\ UNCHANGED <<sec, cbExec, res>>
+     ELSE todo' = todo /\ After(t)
+  /\ UNCHANGED <<st, ev, mtx, rv, cbk, src, q, top, bad, phase, effSets, values, doneReq>>
 
 \* ---- next(): async_wait on the inner event
 AutoWait(t, n) ==
@@ -201,6 +209,7 @@ Step(t) ==
            \/ o[1] = "next" /\ NextOp(t, o[2])
      \/ pc[t] = "h.mtx" /\ MtxSpin(t)
      \/ pc[t] = "h.lock" /\ Locked(t)
+     \/ pc[t] = "ev_xchg" /\ Xchg(t)
      \/ pc[t] = "v1.set_pop" /\ SetPop(t)
      \/ pc[t] = "h.unlock" /\ Unlocked(t)
      \/ pc[t] = "auto.wait" /\ AutoWait(t, Op(t)[2])
